@@ -195,6 +195,11 @@ impl<'a> Live<'a> {
 			commits: tree.all_commits(),
 		}
 	}
+	pub fn open_model(tree: &'a Tree, dir: &Path, opts: Options, model: Model) -> Live<'a> {
+		let mut l = Live::open(tree, dir, opts);
+		l.model = model;
+		l
+	}
 	pub fn chain(&self) -> &Chain {
 		self.chain.as_ref().unwrap()
 	}
@@ -312,6 +317,9 @@ pub struct Explorer<'a> {
 	/// (shard, n): only depth-2 subtrees k (numbered in DFS order) with k % n == shard are explored
 	pub shard: (usize, usize),
 	pub branch_ctr: usize,
+	/// deliver a block only when its parent body is accepted, and never twice (C02; the
+	/// other orders belong to C03)
+	pub parent_first: bool,
 }
 
 pub fn case_json(inst: &str, tree: &Tree, prefix: &[Ev]) -> Value {
@@ -339,6 +347,7 @@ impl<'a> Explorer<'a> {
 			max_states: u64::MAX,
 			shard: (0, 1),
 			branch_ctr: 0,
+			parent_first: false,
 		}
 	}
 
@@ -371,6 +380,163 @@ impl<'a> Explorer<'a> {
 		remaining.sort();
 		let mut prefix = vec![];
 		self.dfs(&mut prefix, &mut remaining, inv, rep);
+	}
+
+	/// Snapshot exploration for histories whose state lives on disk only (no pending orphans):
+	/// a state is a directory; a transition = copy, reopen, apply one event. `probes` are
+	/// tried at every state whose parent block is accepted but never added to the history
+	/// (invalid / rejected inputs: they must not change the state, so they do not multiply it).
+	/// Reopening the copy must reproduce the fingerprint (restart clause).
+	pub fn explore_snap(
+		&mut self,
+		events: &[Ev],
+		probes: &[Ev],
+		inv: &mut dyn Invariant,
+		rep: &mut Report,
+	) {
+		let mut remaining: Vec<Ev> = events.to_vec();
+		remaining.sort();
+		let root = self.sc.fresh("s");
+		uni::copy_dir(&self.base, &root);
+		let fp0 = {
+			let live = Live::open(self.tree, &root, self.opts);
+			live.fp()
+		};
+		let mut prefix = vec![];
+		let range = (0usize, self.shard.1);
+		self.snap(&mut prefix, &root, &Model::default(), &fp0, &mut remaining, probes, inv, rep, range);
+		let _ = std::fs::remove_dir_all(&root);
+	}
+
+	fn enabled(&self, model: &Model, ev: &Ev) -> bool {
+		match ev {
+			Ev::B(i) | Ev::H(i) => {
+				let parent_ok = match self.tree.blocks[*i].parent {
+					None => true,
+					Some(p) => model.accepted.contains(&p),
+				};
+				parent_ok && !model.accepted.contains(i)
+			}
+			_ => true,
+		}
+	}
+
+	#[allow(clippy::too_many_arguments)]
+	fn snap(
+		&mut self,
+		prefix: &mut Vec<Ev>,
+		dir: &Path,
+		model: &Model,
+		fp_here: &Fp,
+		remaining: &mut Vec<Ev>,
+		probes: &[Ev],
+		inv: &mut dyn Invariant,
+		rep: &mut Report,
+		range: (usize, usize),
+	) {
+		if rep.states >= self.max_states {
+			rep.capped = Some(format!("state cap {} reached in {}", self.max_states, self.inst));
+			return;
+		}
+		let me = self.shard.0;
+		// the lowest shard of the range that shares this state runs its probes
+		let probe_here = range.0 == me;
+		let mut step = |this: &mut Self, ev: &Ev, prefix: &mut Vec<Ev>, rep: &mut Report, inv: &mut dyn Invariant| -> (PathBuf, Model, Fp) {
+			let d = this.sc.fresh("s");
+			uni::copy_dir(dir, &d);
+			let mut live = Live::open_model(this.tree, &d, this.opts, model.clone());
+			let reopened = live.fp();
+			if &reopened != fp_here {
+				rep.violation(
+					"restart:state-differs-after-reopen",
+					format!("closing and reopening the chain changed its state: {:?}", fp_here.diff(&reopened).into_iter().take(4).collect::<Vec<_>>()),
+					case_json(&this.inst, this.tree, prefix),
+				);
+			}
+			let out = live.apply(ev);
+			let after = live.fp();
+			prefix.push(ev.clone());
+			rep.transitions += 1;
+			rep.evaluations += 1;
+			rep.outcome(&format!(
+				"{}:{}",
+				match ev {
+					Ev::B(_) => "B",
+					Ev::H(_) => "H",
+					Ev::HS(_) => "HS",
+					Ev::Reopen => "reopen",
+					Ev::Compact => "compact",
+				},
+				if out.ok {
+					if out.accepted.is_empty() { "ok".to_string() } else { out.accepted.iter().map(|(_, s)| s.split('@').next().unwrap().to_string()).collect::<Vec<_>>().join("+") }
+				} else {
+					err_class(&out.err)
+				}
+			));
+			inv.check(&live, prefix, fp_here, &after, &out, rep);
+			prefix.pop();
+			let m = live.model.clone();
+			drop(live);
+			(d, m, after)
+		};
+		// probes
+		for p in probes {
+			if !self.enabled(model, p) {
+				continue;
+			}
+			if !probe_here {
+				continue; // states shared by several shards are probed once
+			}
+			let (d, _, _) = step(self, p, prefix, rep, inv);
+			let _ = std::fs::remove_dir_all(&d);
+		}
+		// children and the sub-range of shards each one is given
+		let mut kids: Vec<usize> = vec![];
+		{
+			let mut tried: Vec<Ev> = vec![];
+			for idx in 0..remaining.len() {
+				let ev = remaining[idx].clone();
+				if tried.contains(&ev) || !self.enabled(model, &ev) {
+					continue;
+				}
+				tried.push(ev);
+				kids.push(idx);
+			}
+		}
+		let size = range.1 - range.0;
+		let k = kids.len().max(1);
+		for (ci, idx) in kids.iter().cloned().enumerate() {
+			let ev = remaining[idx].clone();
+			let child_range = if size <= 1 {
+				range
+			} else if k <= size {
+				let lo = range.0 + ci * size / k;
+				let hi = range.0 + (ci + 1) * size / k;
+				(lo, hi)
+			} else {
+				let s = range.0 + ci % size;
+				(s, s + 1)
+			};
+			if me < child_range.0 || me >= child_range.1 {
+				continue;
+			}
+			let (d, m, after) = step(self, &ev, prefix, rep, inv);
+			remaining.remove(idx);
+			let key = hash64(&(after.digest(), &m.accepted, &*remaining));
+			if self.memo.insert(key) {
+				rep.states += 1;
+				rep.distinct += 1;
+				rep.state_keys.insert(hash64(&(&self.inst, key)));
+				if rep.samples.len() < 2 && remaining.len() <= 2 {
+					rep.sample(json!({"instance": self.inst, "history": prefix.iter().chain(std::iter::once(&ev)).map(|e| e.show(self.tree)).collect::<Vec<_>>()}));
+				}
+				prefix.push(ev.clone());
+				self.snap(prefix, &d, &m, &after, remaining, probes, inv, rep, child_range);
+				prefix.pop();
+			}
+			remaining.insert(idx, ev);
+			let _ = std::fs::remove_dir_all(&d);
+		}
 	}
 
 	fn dfs(
@@ -421,6 +587,7 @@ impl<'a> Explorer<'a> {
 		// memo on (state, accepted set, remaining multiset)
 		let key = hash64(&(after.digest(), &live.model.accepted, &*remaining));
 		let dir = live.dir.clone();
+		let model = live.model.clone();
 		drop(live);
 		let _ = std::fs::remove_dir_all(&dir);
 		if !self.memo.insert(key) {
@@ -437,6 +604,17 @@ impl<'a> Explorer<'a> {
 				continue;
 			}
 			tried.push(ev.clone());
+			if self.parent_first {
+				if let Ev::B(i) = &ev {
+					let parent_ok = match self.tree.blocks[*i].parent {
+						None => true,
+						Some(p) => model.accepted.contains(&p),
+					};
+					if !parent_ok {
+						continue;
+					}
+				}
+			}
 			if depth == 1 && self.shard.1 > 1 {
 				self.branch_ctr += 1;
 				if (self.branch_ctr - 1) % self.shard.1 != self.shard.0 {
@@ -652,6 +830,78 @@ pub fn check_unspent(
 				case_json(inst, live.tree, prefix),
 			);
 			return;
+		}
+	}
+}
+
+/// Replay a recorded history (event names as written by `Ev::show`) on a fresh chain.
+pub fn replay_events(tree: &Tree, case: &Value, opts: Options, sc: &uni::Scratch) -> Result<String, String> {
+	let dir = sc.fresh("r");
+	let mut live = Live::open(tree, &dir, opts);
+	let mut obs = vec![];
+	for e in case["events"].as_array().cloned().unwrap_or_default() {
+		let s = e.as_str().unwrap_or("");
+		let mut found = None;
+		for (i, _) in tree.blocks.iter().enumerate() {
+			for cand in [Ev::B(i), Ev::H(i), Ev::HS(i)] {
+				if cand.show(tree) == s {
+					found = Some(cand);
+				}
+			}
+		}
+		if s == "reopen" {
+			found = Some(Ev::Reopen);
+		}
+		if s == "compact" {
+			found = Some(Ev::Compact);
+		}
+		let ev = found.ok_or(format!("unknown event {}", s))?;
+		let o = live.apply(&ev);
+		obs.push(format!(
+			"{} -> {} (model expects {:?}: {}) accepted={:?} head_td={}",
+			s,
+			if o.ok { "Ok".into() } else { o.err.clone() },
+			o.expect.ok,
+			o.expect.why,
+			o.accepted,
+			o.head_after.1
+		));
+	}
+	Ok(obs.join("; "))
+}
+
+/// Run `f` (universe construction + exploration of one instance). A panic whose message starts
+/// with "builder refused" means the real chain refused a block that the universe builder
+/// delivered in a valid history: that is a verdict (valid block rejected), reported as a
+/// violation. Any other panic is propagated (machinery failure or a panic of the code under
+/// test, which the caller's property may treat separately).
+pub fn guarded<F: FnOnce(&mut Report)>(inst: &str, rep: &mut Report, f: F) {
+	let mut local = Report::new();
+	let r = {
+		let lp = std::panic::AssertUnwindSafe((&mut local, f));
+		std::panic::catch_unwind(move || {
+			let lp = lp;
+			let (l, f) = lp.0;
+			f(l)
+		})
+	};
+	rep.merge(local);
+	if let Err(e) = r {
+		let msg = if let Some(s) = e.downcast_ref::<String>() {
+			s.clone()
+		} else if let Some(s) = e.downcast_ref::<&str>() {
+			s.to_string()
+		} else {
+			"panic".to_string()
+		};
+		if msg.starts_with("builder refused") || msg.starts_with("builder chain refused") || msg.starts_with("build_block:") {
+			rep.violation(
+				format!("builder:valid-block-refused:{}", inst),
+				format!("while building universe {} from a valid history the chain refused a valid block: {}", inst, msg),
+				json!({"instance": inst, "panic": msg}),
+			);
+		} else {
+			std::panic::resume_unwind(e);
 		}
 	}
 }
